@@ -37,6 +37,8 @@ def variants(name, lvl):
         yield ('rule', None, ('choice', lit, ('super', 'X'))), []
         yield ('rule', None, ('choice', ('ref', 'N%d' % lvl), ('super', 'X'))), [('N%d' % lvl, ('rule', None, lit))]
     if name == 'Y':
+        # the same definition again, now textually in the derived grammar (same literal argument, the derived grammar's ignore)
+        yield ('class', None, [('y', False, ('call', 'T', [B], []))]), []
         yield ('class', None, [('y', False, ('seq', lit, ('ref', 'X')))]), []
         yield ('rule', None, ('choice', ('seq', lit, ('ref', 'X')), ('super', 'Y'))), []
     if name == 'T':
@@ -115,6 +117,19 @@ INPUTS = e1.strings('abc ', 3) + ['a b', 'ab c', ' ab', 'abab', 'ca b', 'a~b', '
 
 
 def run_job(job):
+    res = run_chain(job, reverse=False)
+    levels = job[0]
+    if len(levels) == 1 and not any('COMPILE' in v['sig'] or 'DIVERGES' in v['sig'] for v in res['viol']):
+        # the same chain built afresh and used in the opposite order (most derived module first)
+        r2 = run_chain(job, reverse=True)
+        for k, v in r2['ctr'].items():
+            res['ctr'][k] = res['ctr'].get(k, 0) + v
+        res['viol'] += r2['viol']
+        res['viol_keys'] += r2['viol_keys']
+    return res
+
+
+def run_chain(job, reverse):
     levels, ig, style, dotted = job
     res = {'ctr': {}, 'sets': {}, 'viol': [], 'viol_keys': []}
     ctr = res['ctr']
@@ -172,8 +187,11 @@ def run_job(job):
             mods.append(b[1])
             check_unchanged('after-building module %d' % i)
             baseline[i] = table(i)
-        # use every module (model comparison), most derived last, then first again
+        # use every module (model comparison), most derived last, then first again (or the reverse order)
         order = list(range(len(specs))) + [0]
+        if reverse:
+            order = list(range(len(specs) - 1, -1, -1)) + [len(specs) - 1]
+            tag += '/reverse-use'
         for mi in order:
             allowed = set(n for n, d in specs[mi].rules if not d[1])
             entries = [(None, mi)] + [(n, mi) for n in sorted(allowed)]
@@ -196,6 +214,39 @@ def run_job(job):
             if any('DIVERGES' in s for s in sigs):
                 break
             check_unchanged('after-using module %d' % mi)
+        if len(specs) == 2 and not reverse and not any('DIVERGES' in s for s in sigs):
+            # revision history: a revised base is compiled under the same name, then the SAME derived text is
+            # compiled again: it must now behave as a derivation of the revised base
+            rev = Spec([(n, (('rule', None, ('str', 'cb')) if n == 'X' else d)) for n, d in specs[0].rules],
+                       ignores=list(specs[0].ignores) or [('re', '~+')], ignore_style=style)
+            rev.ignore_prefix = 'IgA'
+            rev.name, rev.parent_name = specs[0].name, None
+            specs2 = [rev, specs[1]]
+            descs2 = [render.spec(rev), descs[1]]
+            mods2 = []
+            for d in descs2:
+                b = impl.build(d, time_limit=20.0)
+                if b[0] != 'OK':
+                    res['viol'].append({'sig': '%s COMPILE-after-revision %s' % (tag, b[1] if len(b) > 1 else b[0]),
+                                        'case': {'descs': [x.replace(uid, 'U') for x in descs2], 'what': 'Grammar() after revision'},
+                                        'expected': 'a module', 'got': list(b)})
+                    break
+                mods2.append(b[1])
+            if len(mods2) == 2:
+                allowed = set(n for n, d in specs2[1].rules if not d[1])
+                sub = {'mods': None, 'inputs': INPUTS, 'entries': [(None, 1)] + [(n, 1) for n in sorted(allowed)], 'mode': 'simple',
+                       'tag': tag + '/revised-base', 'time_limit': 0.3, '_kdescs': [x.replace(uid, 'U') for x in descs2]}
+                r3 = {'ctr': {}, 'sets': {}, 'viol': [], 'viol_keys': []}
+
+                def bump3(k, n=1):
+                    r3['ctr'][k] = r3['ctr'].get(k, 0) + n
+                e1._run_cases(sub, specs2, descs2, mods2, r3, bump3, 'simple', False, False, tag + '/revised-base')
+                for k, v in r3['ctr'].items():
+                    bump(k, v)
+                res['viol_keys'].extend(r3['viol_keys'])
+                res['viol'].extend(r3['viol'])
+                # ... while the modules built before the revision keep their behaviour
+                check_unchanged('after-revision of the base under the same name')
     finally:
         for n in names:
             impl.uninstall(n)
@@ -210,7 +261,10 @@ def run(tier, seed):
                 'x plain/dotted module names; three-level chains (quick: at most one rule per level departs from inherit, 3 ignore placements; '
                 'thorough: all 46656 (capped, see caps_hit) x 7 ignore placements); entries: parse of every module of the chain and every rule or class the module '
                 'defines itself; 97 inputs over {a,b,c,space,~}; oracle: late-binding model; history: the outcome table of every ancestor is '
-                're-checked after every later module is built and after every module is used; non-trivial = the model run needed a restore')
+                're-checked after every later module is built and after every module is used; two-level chains are additionally built afresh and '
+                'used in the opposite order, and followed by a revision history (a revised base compiled under the same name, the same derived '
+                'text compiled again: must derive from the revised base; the earlier modules keep their behaviour); '
+                'non-trivial = the model run needed a restore')
     chk.assumptions = ['reference interpreter (late binding, lexical super, skip set = union over the chain)',
                        'M.<R>.parse for a rule M merely inherits is not compared (it is the parent\'s own object)']
     chk.explore(run_job, chains(tier), chunk=2, job_deadline=120)
